@@ -10,14 +10,14 @@ TECH = "Rocq/Coq proof over executable model + differential correspondence check
 
 # session-3 addenda to the level texts (appended by the generator)
 ADDENDA = {
-    "C01": " Liveness as EVENTUALLY (release steps and handler returns strictly decrease a measure: everything accepted is answered). Also: units are the accepted messages in FIFO order (ghost log), a unit is delivered exactly once iff it is not silent, a reply body is the outcome of the unique handler invocation; no reachable state has crashed (C08), so no crash hypothesis remains.",
-    "C02": " Also: survival stated on reach/step with no crash disjunct; every emitted response is id-null -32700/-32600 or the reply to a received call.",
-    "C03": " Also in step and trace form (the notification's completion precedes every later handler entry), the liveness half at quiescence, arrival order = unit order; racing scenarios and scripted histories in the harness.",
+    "C01": " Liveness as EVENTUALLY (release steps and handler returns strictly decrease a measure: everything accepted is answered). Also: units are the accepted messages in FIFO order (ghost log), a unit is delivered exactly once iff it is not silent, a reply body is the outcome of the unique handler invocation; no reachable state has crashed (C08), so no crash hypothesis remains. The monitor 'a response id is sent at most as often as it was fed' is a Coq function proved of every model run (c01_mon_reply_once_sound) and evaluated by the extracted runner on every log, racing ones included.",
+    "C02": " Also: survival stated on reach/step with no crash disjunct; every emitted response is id-null -32700/-32600 or the reply to a received call. Monitors 'no token starts its handler more often than it was fed' and 'gates never outnumber starts' proved of every model run (c02_mon_start_once_sound, c02_mon_gate_after_start_sound) and evaluated on every log, racing ones included.",
+    "C03": " Also in step and trace form (the notification's completion precedes every later handler entry), the liveness half at quiescence, arrival order = unit order; racing scenarios and scripted histories in the harness. The barrier monitor is a Coq function proved of every model run (c03_mon_barrier_sound) and evaluated on every log, racing ones included.",
     "C04": " Nothing partial: a returned value is the first member delivered for that id while pending (ghost delivery log), order/partition irrelevance, wire ids and spec order of batches, single consumer per reply.",
     "C05": " Nothing partial: liveness at quiescence and reachability of quiescence by release steps (measure), OnCancel exactly-once counting, OnStop once with the first cause, Close returns only after every callback handler, no goroutine left, failure outcomes. The client harness has a racing mode (monitors only).",
     "C06": " Also: step-level work conservation (a released slot is handed to the head waiter in the same window), waits only when full in every reachable state.",
     "C07": " Also: free iff no unfinished holder, a freed id is accepted again, delivering one unit leaves other units' reservations and contexts alone. The base context (ServerOptions.NewContext) is not in the model: that cause is covered by racing scenarios and monitors only.",
-    "C08": " Also: status flags as WaitStatus computes them, notifications handled after a stop, no callback watcher left, Start enabled after WaitStatus, release steps strictly decrease a measure (eventual quiescence/termination). Restart: a restarted server is bisimilar to a fresh one for servers without push (c08_restart_simulation_nopush); remaining _partial: c08_restart_simulation_partial (histories with callback records).",
+    "C08": " Also: status flags as WaitStatus computes them, notifications handled after a stop, no callback watcher left, Start enabled after WaitStatus, release steps strictly decrease a measure (eventual quiescence/termination). Restart: a restarted server is the embedding of a fresh one for EVERY history, callback records included (c08_restart_simulation: step commutes with the embedding, runs correspond both ways up to the renaming of callback ids; environment hypotheses explicit and each shown necessary by a refutation witness). No _partial theorem remains.",
     "C09": " Also: gate and late replies stated on step from reachable states, exactly one return per push call over whole traces. The check also runs the library's own Client as the callback peer (family cli:c09: handlers that fail with coded/uncoded errors, return unencodable values, panic) against the client model.",
     "C10": " Byte level: what the server and client models pass to Send encodes to one JSON object or non-empty array of objects that parses back (module Bytes10). Also: every run of the server model mapped to lock/Send/Recv/Close events is well-locked and disciplined; client half (module Cli): Close once, every channel operation inside one critical section, none after stop, single reader. The check drives both sides (families c10 and cli:c10).",
     "C11": " Also: Direct under every interleaving of Send/Recv/Close, independence of the reader window, chunked-reader models for the split and header framings (recv over any chunking = recv over the concatenation), RawJSON literals.",
